@@ -1686,6 +1686,11 @@ def C03(tier, seed):
         C.log(f"[C03] TLC {ccfg}: {r['states']} distinct states; rotation steps (flush, rename, open, switch, act) interleaved with "
               f"the cleanup thread (take, compress): NoRecordLost, NoDuplicate, WriterLinked hold; the rotation as pinned "
               f"(rename before flush) violates NoRecordLost (the defect repaired in /repo)")
+        apa = None
+        if tier != "quick":
+            apa = C.run_apalache_flwconc()
+            C.log(f"[C03] Apalache: inductive invariant of FlwConc discharged for direct / buf / async ({len(apa['steps'])} steps, "
+                  f"{apa['wall_s']}s): the safety invariants hold for any number of records per producer")
         rng = random.Random(seed)
         scens = []
         nsched = 0
@@ -1825,6 +1830,7 @@ def C03(tier, seed):
                        "(pool 1-50, message capacity 8-200), outputs file, stdout, stderr (child process), seeded yield/sleep "
                        "noise at the hook points",
                "samples": samples, "model_checking_runs": mc_stats, "schedules_replayed": nsched, "stress_runs": nstress + ntraced,
+               "inductive_invariant": apa,
                "conform_mode_threads": {"spec": "TraceFlwConc.tla", "traces_checked": cfc["scenarios"],
                                         "events_checked": cfc["events"],
                                         "accepted": cfc["scenarios"] - len({d[0] for d in cfc["drifts"]}),
